@@ -287,7 +287,8 @@ EXTREMES = {
     "int32": [0, 1, M32, 0x7fffffff, 0x80000000], "int32c": [0, 1, M32, 0x7fffffff, 0x80000000],
     "int8": [0, 1, (-1) & M32, 127, (-128) & M32], "int16": [0, 1, (-1) & M32, 32767, (-32768) & M32],
     "uint8": [0, 1, 255, 128], "uint16": [0, 1, 65535, 32768], "uint32": [0, 1, M32, 0x80000000],
-    "date": [0, 1, (-1) & M32, 40000, (-20000) & M32], "time_ms": [0, 1, 86399999],
+    # 106751 days = 2262-04-11 is the last day datetime64[ns] holds; 2932896 = 9999-12-31 (a common sentinel date)
+    "date": [0, 1, (-1) & M32, 40000, (-20000) & M32, 106751, (-106751) & M32, 106752, 2932896, (-106753) & M32], "time_ms": [0, 1, 86399999],
     "int64": [0, 1, M64, (1 << 63) - 1, 1 << 63], "int64c": [0, 1, M64, (1 << 63) - 1, 1 << 63],
     "uint64": [0, 1, M64, 1 << 63],
     "ts_ms": [0, 1, (-1) & M64, 4 * 10**12, (-2 * 10**12) & M64], "ts_us": [0, 1, (-1) & M64, 4 * 10**15, (-2 * 10**15) & M64],
